@@ -107,6 +107,27 @@ type ExecImpl struct {
 	RunTarget func(cfg *ExecConfig, i int, root string, rec *ExecRecorder) error
 	// RunAll runs the real ExecutePackages/ExecuteTargets over all targets.
 	RunAll func(cfg *ExecConfig, root string) error
+	// Session makes one Context for all targets of cfg, as ExecutePackages/ExecuteTargets do: Run executes target i on
+	// it, Order reports the ids of its canonical Order as it is now.
+	Session func(cfg *ExecConfig, root string) *ExecSession
+	// ArgsVerify (v1, optional) drives the way a tool asks for verify-only mode, args.GeneratorArgs: "flag:<preset>:<argv>"
+	// registers the flags on a fresh flag set over a GeneratorArgs whose VerifyOnly was preset in code, parses argv and
+	// reports the resulting VerifyOnly; "run:<perturbation>" generates through GeneratorArgs.Execute, perturbs the
+	// output, runs Execute again with VerifyOnly and reports "verify=<ok|err:file|err:other> disk=<same|changed>".
+	ArgsVerify func(mode string) (string, error)
+}
+
+type ExecSession struct {
+	Run   func(i int, rec *ExecRecorder) error
+	Order func() []int
+}
+
+// ArgsVerifyModes: the scenarios of ArgsVerify and what the property demands of each
+var ArgsVerifyModes = [][2]string{
+	{"flag:true:", "true"}, {"flag:true:--verify-only=false", "false"}, {"flag:false:", "false"}, {"flag:false:--verify-only", "true"},
+	{"flag:true:--verify-only", "true"},
+	{"run:intact", "verify=ok disk=same"}, {"run:edited", "verify=err:file disk=same"}, {"run:missing", "verify=err:file disk=same"},
+	{"run:truncated", "verify=err:file disk=same"},
 }
 
 func idsField(ids []int) string {
@@ -325,6 +346,24 @@ func ExecProperty(impl ExecImpl, prop string, gen func(c *Ctx, v2 bool)) Propert
 		}
 		var fails []Failure
 		fail := func(sig, what string) { fails = append(fails, Failure{sig, what}) }
+		if f := Fields(lines[0]); len(lines) == 1 && f[1] == "argsverify" {
+			if impl.ArgsVerify != nil {
+				mode := Unhex(f[2])
+				want := ""
+				for _, m := range ArgsVerifyModes {
+					if m[0] == mode {
+						want = m[1]
+					}
+				}
+				got, err := impl.ArgsVerify(mode)
+				if err != nil {
+					fail("harness", "argsverify "+mode+": "+err.Error())
+				} else if got != want {
+					fail("verify-request-not-honoured", fmt.Sprintf("GeneratorArgs, scenario %s: %s, the property demands %s", mode, got, want))
+				}
+			}
+			return outs, fails
+		}
 		cfg := parseExecConfig(lines)
 		root := materialise(cfg)
 		defer os.RemoveAll(root)
@@ -332,6 +371,10 @@ func ExecProperty(impl ExecImpl, prop string, gen func(c *Ctx, v2 bool)) Propert
 		var parts []string
 		var classes []string
 		anyUnknown := false
+		var sess *ExecSession
+		if impl.Session != nil {
+			sess = impl.Session(cfg, root)
+		}
 		for i, t := range cfg.Targets {
 			rec := &ExecRecorder{}
 			pre := snapshot(root)
@@ -343,8 +386,18 @@ func ExecProperty(impl ExecImpl, prop string, gen func(c *Ctx, v2 bool)) Propert
 						fail("panic", fmt.Sprintf("executing target %s panics: %v", t.Name, r))
 					}
 				}()
-				err = impl.RunTarget(cfg, i, root, rec)
+				if sess != nil {
+					// the targets of one run share one Context
+					err = sess.Run(i, rec)
+				} else {
+					err = impl.RunTarget(cfg, i, root, rec)
+				}
 			}()
+			if sess != nil {
+				if got := sess.Order(); ShowIDs(got) != ShowIDs(cfg.Order) {
+					fail("context-order-changed", fmt.Sprintf("executing target %s changed the Context's canonical order from %s to %s", t.Name, ShowIDs(cfg.Order), ShowIDs(got)))
+				}
+			}
 			cls := classifyExecErr(err, t, cfg)
 			classes = append(classes, cls)
 			if cls == "unknowntype" {
@@ -582,6 +635,29 @@ func execOracleProtocol(cfg *ExecConfig, t *ExecTarget, evs []string, cls string
 				if !ok {
 					fail("file-missing", fmt.Sprintf("target %s: file %s was not written", t.Name, fname))
 					continue
+				}
+				// the contributed variable and constant lines are in the file as contributed, in generator order
+				for _, blk := range []struct {
+					kind  string
+					lines func(g *ExecGen) []string
+				}{{"variable", func(g *ExecGen) []string { return g.Vars }}, {"constant", func(g *ExecGen) []string { return g.Consts }}} {
+					at := 0
+					for _, g := range t.Gens {
+						if g.Filename != fname {
+							continue
+						}
+						for _, l := range blk.lines(g) {
+							if strings.Contains(l, ExecFailMarker) {
+								continue
+							}
+							p := strings.Index(content[at:], l+"\n")
+							if p < 0 {
+								fail("contribution-lost", fmt.Sprintf("target %s: file %s does not hold the contributed %s line %q (after the lines contributed before it)", t.Name, fname, blk.kind, l))
+								break
+							}
+							at += p + len(l) + 1
+						}
+					}
 				}
 				pos := -1
 				for _, g := range t.Gens {
